@@ -101,6 +101,13 @@ def discharge(obls, workers=None, timeout_ms=None, second_backend=False):
         if "SUM" in smt:
             sax = sax or sum_axioms()
             extra += sax
+        lem = getattr(ob, "lemmas", None)
+        if lem:
+            from .lemmas import sum_lemma_axiom
+            extra += [sum_lemma_axiom(n) for n in lem]
+            if "SUM" not in smt:
+                sax = sax or sum_axioms()
+                extra += sax
         if extra:
             smt = to_smt2(ob, extra)
         ob._smt = smt
